@@ -67,6 +67,9 @@ def ref_lookup(secs, section, key, default):
     return val
 
 
+LATENCY_DEFAULTS = (0, 1)
+
+
 def reference(case):
     """-> dict of expected attributes, or raises Reject"""
     accel = case["accel"]
@@ -88,6 +91,11 @@ def reference(case):
         exp["mem"] = {}
         for m in set(ports.values()):
             exp["mem"][m] = dict(clock_scale=float(ref_lookup(secs, ssec, m + "_clock_scale", 1)), burst_length=int(ref_lookup(secs, ssec, m + "_burst_length", 1)))
+            # latencies: a value given anywhere in the chain is the value used; the default of an unspecified one is not pinned down by the documentation ("1 or the
+            # equivalent" vs the code's 0): both readings are accepted (LATENCY_DEFAULTS) - but nothing else, in particular not the value of another option
+            for d in ("read_latency", "write_latency"):
+                v = ref_lookup(secs, ssec, m + "_" + d, None)
+                exp["mem"][m][d] = int(v) if v is not None else LATENCY_DEFAULTS
     elif sysname == "internal-default":
         exp.update(core_clock=1e9 if u65 else 500e6, axi0_port="Sram", axi1_port="Dram" if u65 else "OffChipFlash")
         exp["mem"] = {"Sram": dict(clock_scale=1.0, burst_length=32), ("Dram" if u65 else "OffChipFlash"): dict(clock_scale=0.75 if u65 else 0.125, burst_length=128)}
@@ -169,7 +177,10 @@ def observe_direct(case):
             return ("reject", type(e).__name__, str(e)[:200])
         mem = {}
         for m in (a.axi0_port, a.axi1_port):
-            mem[m.name] = dict(clock_scale=float(a.memory_clock_scales[m]), burst_length=int(a.memory_burst_length[m]))
+            from ethosu.vela.architecture_features import BandwidthDirection  # noqa
+
+            mem[m.name] = dict(clock_scale=float(a.memory_clock_scales[m]), burst_length=int(a.memory_burst_length[m]),
+                               read_latency=int(a.memory_latency[m][BandwidthDirection.Read]), write_latency=int(a.memory_latency[m][BandwidthDirection.Write]))
         return ("ok", dict(core_clock=float(a.core_clock), axi0_port=a.axi0_port.name, axi1_port=a.axi1_port.name, mem=mem, const_mem_area=a.const_mem_area.name,
                            arena_mem_area=a.arena_mem_area.name, cache_mem_area=a.cache_mem_area.name, arena_cache_size=int(a.arena_cache_size),
                            permanent_storage=a.permanent_storage_mem_area.name, feature_map_storage=a.feature_map_storage_mem_area.name,
@@ -187,6 +198,12 @@ def compare(case, exp, got, where):
                 if m not in got["mem"]:
                     continue  # memory no longer on a port after the Sram-only rewrite
                 for kk, vv in vals.items():
+                    if kk not in got["mem"][m]:
+                        continue  # (the command-line print-out is parsed for clock scale and burst length only)
+                    if isinstance(vv, tuple):
+                        if got["mem"][m][kk] not in vv:
+                            raise Violation("C18/%s/value/%s_%s" % (where, "mem", kk), "%s %s: not given in the file, resolved %r (admissible defaults %r)" % (m, kk, got["mem"][m][kk], vv), case)
+                        continue
                     if got["mem"][m][kk] != vv:
                         raise Violation("C18/%s/value/%s_%s" % (where, "mem", kk), "%s %s: resolved %r, documented rules give %r" % (m, kk, got["mem"][m][kk], vv), case)
             continue
@@ -273,8 +290,10 @@ def case_strategy(cli=False):
                     o[m + "_clock_scale"] = draw(st.sampled_from(["1.0", "0.5", "0.125", "0.0625", "0.75"]))
                 if draw(st.integers(0, 2)) == 0:
                     o[m + "_burst_length"] = str(draw(st.sampled_from([1, 16, 32, 64, 128])))
-                if draw(st.integers(0, 4)) == 0:
+                if draw(st.integers(0, 2)) == 0:
                     o[m + "_read_latency"] = str(draw(st.sampled_from([1, 32, 64, 500])))
+                if draw(st.integers(0, 3)) == 0:
+                    o[m + "_write_latency"] = str(draw(st.sampled_from([1, 32, 64, 250])))
             sys_secs["System_Config." + names[i]] = o
         for i in range(nmem):
             o = {}
